@@ -104,12 +104,13 @@ def run(tier):
     n = 0
     herr = 0
     seen = set()
-    for pt, r in cfgmc.run_points('mc.c19point', pts, timeout=120):
+    cstats = {}
+    for pt, r, verdicts in cfgmc.run_judged('mc.c19point', pts, judge, timeout=300, stats=cstats):
         n += 1
         if n % 29 == 1:
             rep.sample({'point': pt, 'bound': r.get('bound'), 'flags_port': r.get('flags_port'), 'flags_ports': r.get('flags_ports'),
                         'port_file': r.get('port_file')})
-        for sym, detail in judge(pt, r):
+        for sym, detail in verdicts:
             if sym == 'harness_error':
                 herr += 1
             shape = ','.join('0' if x == 0 else 'fixed' for x in pt['ports']) or 'none'
@@ -120,6 +121,8 @@ def run(tier):
                 continue
             seen.add(k)
             rep.violation(feats, {'point': pt, 'detail': detail, 'result': {x: r.get(x) for x in ('bound', 'flags_port', 'flags_ports', 'port_file')}})
+    rep.add(points_rerun_for_confirmation=cstats.get('points_rerun_for_confirmation', 0),
+            points_not_reproduced=cstats.get('points_not_reproduced', 0))
     rep.add(states=n, transitions=2 * n, traces_validated_against_impl=n, live_runs=n, harness_errors=herr,
             rule='option lattice: mode {threaded, local, remote} x workers {1,2} x hostname/hostnames {v4, v6, v4+v6, v6+v4} x --port '
                  '{0, fixed} x --ports {none, [0], [fixed], [fixed,0], [fixed x3]} x unix socket x pid/port files x hash seeds (so that '
